@@ -25,8 +25,10 @@ Judge(o) ==
             \cup (IF o.status \in 400..499 THEN {} ELSE {"C12.MalformedIsClientError"})
        [] Valid(cv) ->
             (IF o.n = 1 THEN {} ELSE {"C12.ValidNeverRejected"})
-            \cup (IF o.n = 1 /\ bv.kind \notin {"absent", "grpc", "connect", "rest"} THEN {"C12.BackendHeaderWellFormed"} ELSE {})
-            \cup (IF o.n = 1 /\ bv.kind \in {"grpc", "connect", "rest"} /\ ~Valid(bv) THEN {"C12.BackendHeaderWellFormed"} ELSE {})
+            \* (a timeout header is a protocol control header: malformed, it is also a request no backend of that
+            \*  protocol has to accept - C02)
+            \cup (IF o.n = 1 /\ bv.kind \notin {"absent", "grpc", "connect", "rest"} THEN {"C12.BackendHeaderWellFormed", "C02.ControlHeaderWellFormed"} ELSE {})
+            \cup (IF o.n = 1 /\ bv.kind \in {"grpc", "connect", "rest"} /\ ~Valid(bv) THEN {"C12.BackendHeaderWellFormed", "C02.ControlHeaderWellFormed"} ELSE {})
             \cup (IF o.n = 1 /\ bv.kind \in {"absent", "grpc", "connect", "rest"} /\ (bv.kind = "absent" \/ Valid(bv)) /\ ~Conveyed(cv, bv)
                   THEN {"C12.NeverExtendedShortByLessThanUnit"} ELSE {})
        [] OTHER -> \* unspecified syntax: may be rejected; if accepted nothing is extended or collapsed
